@@ -188,6 +188,8 @@ def decode_go_string_literal(text: str) -> str:
     """
     if not isinstance(text, str) or len(text) < 2:
         raise ValueError("not a Go string literal")
+    if "\ufeff" in text:
+        raise ValueError("raw byte order mark (U+FEFF) inside a literal: Go rejects a BOM anywhere but at the start of the file")
     if text[0] == "`":
         if text[-1] != "`" or "`" in text[1:-1]:
             raise ValueError("raw string literal not terminated properly")
@@ -318,6 +320,15 @@ def tokenize(text: str) -> List[Token]:
     """
     toks: List[Token] = []
     pos, n, line = 0, len(text), 1
+    # Go specification, "Source code representation": a byte order mark is only tolerated as the very first code point
+    # (gc: "invalid BOM in the middle of the file", go/scanner: "illegal byte order mark"), and gc disallows NUL anywhere -
+    # inside comments and string literals as well.
+    k = text.find("\ufeff", 1)
+    if k >= 0:
+        raise GoParseError("illegal byte order mark (U+FEFF) in the middle of the file", text.count("\n", 0, k) + 1)
+    k = text.find("\x00")
+    if k >= 0:
+        raise GoParseError("illegal character NUL", text.count("\n", 0, k) + 1)
     match = _TOKEN_RE.match
     need_semi = False  # would a newline here insert a semicolon?
     while pos < n:
